@@ -818,4 +818,86 @@ Proof.
   unfold shifted. destruct (Nat.ltb_spec r m1); auto.
 Qed.
 
+(* after the first loop every row, read at its alignment column, is the row of the dense twin *)
+Lemma shifted_row_dense (B : banded) (au0 : matrix) (x : list T) i :
+  wfB B -> length x = bn B -> i < bn B ->
+  (forall r s, s < bm1 B + bm2 B + 1 ->
+     mat_at au0 (bm1 B + bm2 B + 1) r s = shifted (compact B) (bm1 B + bm2 B + 1) (bm1 B) r s) ->
+  rowval au0 (bm1 B + bm2 B + 1) i (c_of (bm1 B) 0 i) x =
+  sum_n (bn B) (fun j => mul (dense_entry B i j) (nth j x zero)).
+Proof.
+  intros Hwf Hx Hi Hau0.
+  rewrite (row_sum_dense RL B x i Hi). unfold rowval, row_cnt, row_lo, row_term.
+  set (n := bn B) in *. set (m1 := bm1 B) in *. set (m2 := bm2 B) in *. set (mm := m1 + m2 + 1) in *.
+  set (cnt := Nat.min n (i + m2 + 1) - (i - m1)).
+  assert (Hcnt : cnt <= mm) by (unfold cnt, mm; lia).
+  replace mm with (cnt + (mm - cnt)) at 1 by lia.
+  rewrite (sum_n_trunc RL).
+  2:{ intros s Hs. rewrite Hau0 by lia. unfold shifted, c_of. fold m1 mm. cbn [Nat.add].
+      replace (i <? 0) with false by reflexivity.
+      destruct (Nat.ltb_spec i m1).
+      - destruct (Nat.ltb_spec s (mm - (m1 - i))).
+        + rewrite nth_overflow; [ring|]. rewrite Hx. fold n. unfold cnt in Hs. lia.
+        + ring.
+      - rewrite nth_overflow; [ring|]. rewrite Hx. fold n. unfold cnt, mm in Hs. lia. }
+  apply sum_n_ext. intros k Hk. rewrite Hau0 by lia. unfold shifted, c_of, cslot. fold m1 m2 mm. cbn [Nat.add].
+  replace (i <? 0) with false by reflexivity.
+  destruct (Nat.ltb_spec i m1).
+  - replace (k <? mm - (m1 - i)) with true by (symmetry; apply Nat.ltb_lt; unfold cnt, mm in *; lia).
+    unfold mat_at. replace (k + (m1 - i)) with (m1 - i + k) by lia.
+    replace (m1 - i + k + i - m1) with (0 + k) by lia. reflexivity.
+  - unfold mat_at. replace (m1 - i + k) with k by lia. replace (k + i - m1) with (i - m1 + k) by lia. reflexivity.
+Qed.
+
+Lemma nth_map_seq {X} (f : nat -> X) n i d : i < n -> nth i (map f (seq 0 n)) d = f i.
+Proof.
+  intros Hi. rewrite (nth_indep _ d (f 0)) by now rewrite map_length, seq_length.
+  rewrite map_nth, seq_nth by auto. reflexivity.
+Qed.
+
+(* ---- band_solve is sound: an answer solves the dense twin's system ---- *)
+Lemma band_solve_sound_lemma (B : banded) (b x : list T) :
+  wfB B -> length b = bn B -> bm1 B <= bn B ->
+  band_solve B b = Ok x -> length x = bn B /\ dense_mulv B x = b.
+Proof.
+  intros Hwf Hb Hm1 H. pose proof Hwf as (HwfM & Hrows & Hcols).
+  unfold band_solve, band_solve_gen in H.
+  destruct (negb (bn B =? length b)); [discriminate|].
+  apply bind_ok in H as ([[[auN alN] indexN] dN] & Edec & H).
+  apply bind_ok in H as ([y ly] & Efwd & H).
+  apply bind_ok in H as ([x' lx] & Eback & H). injection H as <-. cbn [fst] in *.
+  set (n := bn B) in *. set (m1 := bm1 B) in *. set (mm := m1 + bm2 B + 1) in *.
+  assert (Hmm : 1 <= mm) by (unfold mm; lia).
+  unfold decompose_gen in Edec. fold m1 mm n in Edec.
+  apply bind_ok in Edec as (au0 & Eshift & Edec).
+  apply bind_ok in Edec as ([[[[auN' alN'] indexN'] dN'] lN'] & Eloop & Edec). injection Edec as <- <- <- <-.
+  apply (shift_rows_Ok_inv _ _ mm m1) in Eshift as (Hc0 & Hau0); auto; [|unfold mm; lia].
+  unfold for_ in Eloop, Efwd. rewrite Nat.sub_0_r in Eloop, Efwd.
+  assert (Hl0 : m1 = Nat.min (0 + m1) n) by lia.
+  (* sizes of the final work matrix *)
+  pose proof (dec_loop_frame n mm m1 n 0 (au0, mat_new n m1 zero, repeat 0 n, one, m1)
+                (auN', alN', indexN', dN', lN')) as HF.
+  cbn beta iota in HF. cbn [fst snd] in HF.
+  specialize (HF Hc0 eq_refl Hmm Hl0 Hm1 Eloop). destruct HF as (HcN & _).
+  (* back substitution *)
+  pose proof (fwd_loop_length _ _ _ _ _ _ _ Efwd) as Hylen. cbn [fst] in Hylen.
+  destruct (back_subst_sound auN' mm n y x' lx HcN Hmm) as (Hxlen & Hfin); [congruence|exact Eback|].
+  split; [exact Hxlen|].
+  (* all the stages, backwards *)
+  assert (Eloop' : for_from n 0 (dec_step false n mm)
+                     (au0, mat_new n m1 zero, repeat 0 n, one, Nat.min (0 + m1) n) = Ok (auN', alN', indexN', dN', lN'))
+    by (rewrite <- Hl0; exact Eloop).
+  assert (Efwd' : for_from n 0 (fwd_step n alN' indexN') (b, Nat.min (0 + m1) n) = Ok (y, ly))
+    by (rewrite <- Hl0; exact Efwd).
+  pose proof (dec_fwd_back n mm m1 x' Hmm Hm1 n 0 au0 (mat_new n m1 zero) (repeat 0 n) one
+                auN' alN' indexN' dN' lN' b y ly eq_refl Hc0 eq_refl Eloop') as Hall.
+  specialize (Hall (fun i Hi => proj2 (Hfin i (proj2 Hi))) Efwd' (fun i Hi => proj1 (Hfin i Hi))).
+  (* the system the main loop started from is the dense twin's *)
+  apply (nth_ext _ _ zero zero).
+  - unfold dense_mulv. rewrite map_length, seq_length. fold n. lia.
+  - unfold dense_mulv. rewrite map_length, seq_length. intros i Hi.
+    rewrite nth_map_seq by auto.
+    rewrite <- (Hall i Hi). symmetry. apply shifted_row_dense; auto.
+Qed.
+
 End LU.
